@@ -263,6 +263,11 @@ class Compiler:
                 if o.kind == 'buffer':
                     self.asm.emit('sem_rel', o.name)       # the buffer as a counting semaphore: the feeder blocks while it is empty
                     return ('const', 0)
+            if path.endswith('.clear'):
+                o = self.lookup(path[:-len('.clear')])
+                if o.kind == 'buffer':
+                    self.asm.emit('sem_clear', o.name)
+                    return ('const', 0)
             if path in self.env and self.env[path].kind == 'pipe_recv':
                 d = dst or self.asm.tmp('msg')
                 self.asm.emit('sem_acq', self.env[path].name, True, False, d)      # blocks until a whole message is in the pipe
@@ -512,6 +517,10 @@ class Compiler:
             t = type(n.ops[0])
             if t in ops and (self.is_shared(n.left) or self.is_shared(n.comparators[0])):
                 return (ops[t], self.shared_expr(n.left), self.shared_expr(n.comparators[0]))
+            if t in (ast.Is, ast.IsNot) and self.is_shared(n.left) and isinstance(n.comparators[0], ast.Constant) \
+                    and n.comparators[0].value is None:
+                e = ('eq', self.shared_expr(n.left), ('const', 0))
+                return e if t is ast.Is else ('not', e)
         return self.expr(n)
 
     def is_shared(self, n):
